@@ -159,9 +159,72 @@ def body_files(ctx):
     return (present1, present2, same_content, method)
 
 
+def body_chain(ctx):
+    """A chain  data/in.txt -> P -> P/out.txt -> C : the consumer's fuzzy hash follows the producer's fuzzy hash, and no
+    fuzzy hash exists while an input anywhere up the chain is missing."""
+    ins = [ctx.choice('producer_input_in_first', ['missing', 'alpha', 'beta']),
+           ctx.choice('producer_input_in_second', ['missing', 'alpha', 'beta'])]
+    out_present = ctx.flag('producer_output_present')
+    method = ctx.choice('method', ['ref', 'copy', 'output'])
+    in_args = ctx.flag('reference_used_in_arguments')
+    if method == 'copy':
+        ctx.assume(not in_args)
+    ref = 'stage0.P/out.txt:%s' % method
+    doc = {'components': [
+        {'stage': 0, 'name': 'P', 'command': {'executable': 'bin/gen', 'arguments': 'data/in.txt:ref'}, 'references': ['data/in.txt:ref']},
+        {'stage': 1, 'name': 'C', 'command': {'executable': 'bin/use', 'arguments': 'run' + ((' ' + ref) if in_args else '')},
+         'references': [ref]}]}
+    roots = [tempfile.mkdtemp(prefix='verif-c16-c-'), tempfile.mkdtemp(prefix='verif-c16-d-')]
+    hs = []
+    try:
+        for root, content in zip(roots, ins):
+            os.makedirs(os.path.join(root, 'data'))
+            os.makedirs(os.path.join(root, 'stages', 'stage0', 'P'))
+            os.makedirs(os.path.join(root, 'stages', 'stage1', 'C'))
+            if content != 'missing':
+                with open(os.path.join(root, 'data', 'in.txt'), 'w') as f:
+                    f.write(content)
+            if out_present:
+                with open(os.path.join(root, 'stages', 'stage0', 'P', 'out.txt'), 'w') as f:
+                    f.write('produced')
+            g = WorkflowGraph.graphFromFlowIR(copy.deepcopy(doc), {}, primitive=False)
+            g.rootStorage = _Storage(root)
+            for n, d in g.graph.nodes(data=True):
+                st, name = n.split('.', 1)
+                d['componentInstance'] = types.SimpleNamespace(directory=os.path.join(root, 'stages', st, name))
+            sp = g.graph.nodes['stage0.P']['componentSpecification']
+            sc = g.graph.nodes['stage1.C']['componentSpecification']
+            hs.append({'P': (sp.memoization_hash, sp.memoization_hash_fuzzy), 'C': (sc.memoization_hash, sc.memoization_hash_fuzzy)})
+    finally:
+        for r in roots:
+            shutil.rmtree(r, ignore_errors=True)
+    detail = {'producer_inputs': ins, 'producer_output_present': out_present, 'method': method, 'in_arguments': in_args, 'hashes': hs}
+    for content, h in zip(ins, hs):
+        if content == 'missing':
+            ctx.witness('chain_input_missing_checked')
+            ctx.check(h['P'] == (None, None), 'no hash is produced while a referenced input is missing', detail)
+            ctx.check(h['C'][1] is None, 'no fuzzy hash is produced while an input of a producer up the chain is missing', detail)
+        else:
+            ctx.check(all(h['P']), 'a component whose inputs exist has a hash', detail)
+            if out_present:
+                ctx.check(all(h['C']), 'a consumer whose producer chain is complete has a hash', detail)
+        if not out_present:
+            ctx.check(h['C'] == (None, None), 'no hash is produced while a referenced input is missing', detail)
+    if out_present and 'missing' not in ins:
+        ctx.witness('chain_pair_checked')
+        if ins[0] == ins[1]:
+            ctx.check(hs[0] == hs[1], 'equal chains in different instance locations give equal hashes', detail)
+        else:
+            ctx.check(hs[0]['P'][1] != hs[1]['P'][1] and hs[0]['C'][1] != hs[1]['C'][1],
+                      'the fuzzy hash of a consumer changes when the fuzzy hash of its producer changes', detail)
+    return (tuple(ins), out_present, method, in_args)
+
+
 def factory(param):
     if param.get('name') == 'files':
         return body_files
+    if param.get('name') == 'chain':
+        return body_chain
     return body
 
 
@@ -181,6 +244,7 @@ def main(tier, seed, only=None):
     rep.bounds = {'E1': 'pairs differing in exactly one of %d aspects x backend in {local, simulator, kubernetes, lsf, docker} x '
                         'consumer with/without a producer reference' % len(ASPECTS),
                   'files': 'one direct file reference (copy/ref/link): present or missing in each of two instance locations, equal or different contents',
+                  'chain': 'data file -> producer -> produced file -> consumer (ref/copy/output, in arguments or not): the data file missing / alpha / beta in each of two locations, the produced file present or missing',
                   'E2': 'two symbolic strings of <= 2-3 characters in arguments / executable / files / image'}
     rep.outside = ['symbolic file contents (md5_of_file is C code; two concrete contents are used)',
                    'custom JavaScript embedding functions', 'CDB lookups (Controller.can_memoize)']
@@ -188,12 +252,13 @@ def main(tier, seed, only=None):
                        'nodes get a stub componentInstance whose directory exists (/tmp, /usr)']
     rep.explanation = ('E1: bounded symbolic execution (symx/z3) over the choice of the differing aspect; E2: CrossHair (z3) on the '
                        'canonicalisation with symbolic characters; counterexamples replayed natively')
-    rep.required_witnesses = ['relevant_aspect_checked', 'irrelevant_aspect_checked', 'missing_input_checked', 'content_pair_checked']
+    rep.required_witnesses = ['relevant_aspect_checked', 'irrelevant_aspect_checked', 'missing_input_checked', 'content_pair_checked',
+                              'chain_input_missing_checked', 'chain_pair_checked']
     if not only or 'xh' in only:
         import harness.xh.c16_contracts as C
         run_e2(rep, 'harness.xh.c16_contracts', timeout, sweep=C.sweep, key=xh_key)
     if not only or 'pairs' in only:
-        s = explore_parallel('aspect-pairs', factory, [{'name': 'pairs'}, {'name': 'files'}], signature=signature, seed=seed, chunk=8,
+        s = explore_parallel('aspect-pairs', factory, [{'name': 'pairs'}, {'name': 'files'}, {'name': 'chain'}], signature=signature, seed=seed, chunk=8,
                              validate=False)
         rep.add(s)
     else:
